@@ -38,6 +38,16 @@ where
 }
 
 pub fn until_next_unindented(input: &str, at_least_until: usize, fallback_len: usize) -> &str {
+    // Offsets derived from an error position may point past the end of the input or into
+    // the middle of a multi-byte character: move them to the next character boundary.
+    let ceil_char_boundary = |index: usize| {
+        let mut index = index.min(input.len());
+        while !input.is_char_boundary(index) {
+            index += 1;
+        }
+        index
+    };
+    let at_least_until = ceil_char_boundary(at_least_until);
     let mut prev_was_newline = false;
     for (idx, ch) in input[at_least_until..].char_indices() {
         if prev_was_newline && ch.is_ascii_alphanumeric() {
@@ -48,7 +58,7 @@ pub fn until_next_unindented(input: &str, at_least_until: usize, fallback_len: u
     }
 
     // No match found, use fallback
-    input[..input.len().min(fallback_len)].trim()
+    input[..ceil_char_boundary(fallback_len)].trim()
 }
 
 pub fn hex_to_bools(c: char) -> [bool; 4] {
